@@ -24,6 +24,9 @@ func c09NumCases(env *core.Env) int {
 // twinTextWorld builds a world in which the same relative $ref text occurs in documents of two different directories
 // (each directory has its own other.json): the text designates a different document depending on where it is written.
 func twinTextWorld(idx int) *gen.World {
+	if idx >= 48 {
+		return sameTextChainWorld(idx)
+	}
 	dirs := []string{"file:///w/a/s/", "file:///w/", "file:///w/b/", "http://h.example/d/"}
 	d2 := dirs[idx%len(dirs)]
 	text := []string{"other.json#/definitions/d0", "./other.json#/definitions/d0", "other.json#/definitions/d1"}[(idx/4)%3]
@@ -55,7 +58,40 @@ func twinTextWorld(idx int) *gen.World {
 		gen.RootURL: root, "file:///w/a/other.json": mk("a-other"), imp: x, d2 + "other.json": mk("second-other")}}
 }
 
-const c09TwinWorlds = 48
+// sameTextChainWorld: a chain of parameter/response/path-item $refs whose consecutive hops carry the same relative text
+// in documents of different directories.
+func sameTextChainWorld(idx int) *gen.World {
+	leafP := map[string]interface{}{"name": "p", "in": "body", "description": "leaf parameter", "schema": map[string]interface{}{"$ref": "#/definitions/d"}}
+	leafR := map[string]interface{}{"description": "leaf response", "schema": map[string]interface{}{"$ref": "#/definitions/d"}}
+	leafI := map[string]interface{}{"x-mark": "leaf path item", "get": map[string]interface{}{"responses": map[string]interface{}{"200": map[string]interface{}{"$ref": "#/responses/r0"}}}}
+	hop := func(sec, name string) map[string]interface{} {
+		return map[string]interface{}{"$ref": "../x.json#/" + sec + "/" + name}
+	}
+	mkHop := func() map[string]interface{} {
+		return map[string]interface{}{
+			"parameters": map[string]interface{}{"p0": hop("parameters", "p0")},
+			"responses":  map[string]interface{}{"r0": hop("responses", "r0")},
+			"paths":      map[string]interface{}{"/a": hop("paths", "~1a")},
+		}
+	}
+	first := "file:///w/a/s/x.json"
+	if idx%2 == 1 {
+		first = "file:///w/a/s/other.json"
+	}
+	root := map[string]interface{}{"swagger": "2.0", "info": map[string]interface{}{"title": "t", "version": "1"},
+		"parameters": map[string]interface{}{"p0": map[string]interface{}{"$ref": first + "#/parameters/p0"}},
+		"responses":  map[string]interface{}{"r0": map[string]interface{}{"$ref": first + "#/responses/r0"}},
+		"paths": map[string]interface{}{"/a": map[string]interface{}{"$ref": first + "#/paths/~1a"},
+			"/b": map[string]interface{}{"post": map[string]interface{}{"parameters": []interface{}{map[string]interface{}{"$ref": first + "#/parameters/p0"}},
+				"responses": map[string]interface{}{"default": map[string]interface{}{"$ref": first + "#/responses/r0"}}}}},
+	}
+	return &gen.World{Root: gen.RootURL, Features: map[string]int{"same-text-chain-world": 1, "cross-document-ref": 1, "chain-across-documents": 1}, Slots: 12, Docs: map[string]interface{}{
+		gen.RootURL: root, first: mkHop(), "file:///w/a/x.json": mkHop(),
+		"file:///w/x.json": map[string]interface{}{"parameters": map[string]interface{}{"p0": leafP}, "responses": map[string]interface{}{"r0": leafR}, "paths": map[string]interface{}{"/a": leafI},
+			"definitions": map[string]interface{}{"d": map[string]interface{}{"title": "leaf definition", "type": "object"}}}}}
+}
+
+const c09TwinWorlds = 48 + 4
 
 func c09World(env *core.Env, idx int) (*gen.World, bool) {
 	if idx < c09TwinWorlds {
